@@ -97,7 +97,39 @@ def defect3():
     print(sorted(os.listdir(wt)))      # git: "fatal: empty filename in tree entry"
     shutil.rmtree(top)
 
+def defect4():
+    # Defect D: sparse checkout materialises / removes index paths without any path validation
+    import os, shutil, tempfile
+    from dulwich import porcelain
+    from dulwich.objects import Blob, Commit, Tree
+    from dulwich.repo import Repo
+
+    top = tempfile.mkdtemp(dir="/dev/shm")
+    open(os.path.join(top, "victim"), "w").write("precious\n")
+    wt = os.path.join(top, "wt")
+    r = Repo.init(wt, mkdir=True)
+    hook = Blob.from_string(b"#!/bin/sh\necho pwned\n")
+    hooks = Tree(); hooks.add(b"post-checkout", 0o100755, hook.id)
+    git = Tree(); git.add(b"hooks", 0o040000, hooks.id)
+    up = Tree(); up.add(b"victim", 0o100644, hook.id); up.add(b"dropped", 0o100644, hook.id)
+    root = Tree(); root.add(b".git", 0o040000, git.id); root.add(b"..", 0o040000, up.id)
+    c = Commit(); c.tree = root.id; c.author = c.committer = b"A <a@example.com>"
+    c.author_time = c.commit_time = 0; c.author_timezone = c.commit_timezone = 0; c.message = b"m"
+    for o in (hook, hooks, git, up, root, c): r.object_store.add_object(o)
+    r.close()
+    porcelain.reset(wt, "mixed", c.id)                      # index := hostile tree, nothing written yet
+    porcelain.sparse_checkout(wt, patterns=["*"], cone=False)   # "include everything"
+    print("hook created      :", os.path.exists(os.path.join(wt, ".git", "hooks", "post-checkout")))
+    print("file dropped in ..:", os.path.exists(os.path.join(top, "dropped")))
+    porcelain.sparse_checkout(wt, patterns=["/nothing"], force=True, cone=False)   # "include nothing"
+    print("../victim survives:", os.path.exists(os.path.join(top, "victim")))
+    shutil.rmtree(top)
+
+
 if __name__ == "__main__":
-    for f in (defect1, defect2, defect3):
+    for f in (defect1, defect2, defect3, defect4):
         print("---", f.__name__)
-        f()
+        try:
+            f()
+        except Exception as e:  # a repaired tree refuses: that is the good outcome
+            print("refused:", type(e).__name__, e)
